@@ -53,8 +53,8 @@ class C13(Property):
         "for requests earlier than the link's start time the delivered publication (not the literal time argument) is compared: the source "
         "delivers its initial publication for max(t-d, start) and for t < start alike (F14)",
     )
-    cases = {"quick": 10000, "thorough": 120000}
-    min_nontrivial = {"quick": 3000, "thorough": 30000}
+    cases = {"quick": 10000, "thorough": 600000}
+    min_nontrivial = {"quick": 3000, "thorough": 150000}
 
     def gen(self, rnd, i, tier):
         if i % 25 == 24:
